@@ -317,6 +317,11 @@ pub fn run_session(ctx: &mut Ctx, t: &mut Tape, mode: Mode) {
                             xtree_diff(&a, &scr_x, EqOpts::FULL).is_none()
                         };
                         let has_empty_range = cur_ranges.as_ref().map(|r| r.iter().any(|x| x.start_byte == x.end_byte)).unwrap_or(false);
+                        // a token of the correct tree runs from one included range into the next
+                        let token_spans_gap = cur_ranges
+                            .as_ref()
+                            .map(|r| r.windows(2).any(|w| w[0].end_byte < w[1].start_byte && scr_x.leaves().any(|n| n.start < w[0].end_byte && n.end > w[1].start_byte)))
+                            .unwrap_or(false);
                         let after_nt_extra = lname == "mini" && pending_edits.iter().zip(pending_texts.iter()).any(|(e, txt)| edit_follows_pragma(txt, e.start));
                         let ends_only = inc_x.len() == scr_x.len() && {
                             let mut a = inc_x.clone();
@@ -336,6 +341,8 @@ pub fn run_session(ctx: &mut Ctx, t: &mut Tape, mode: Mode) {
                             "C01:mismatch:glr_reuse_leaves_error".to_string()
                         } else if after_nt_extra {
                             "C01:mismatch:edit_right_after_nonterminal_extra".to_string()
+                        } else if token_spans_gap && (ranges_changed || ranges_differ) {
+                            "C01:mismatch:token_across_changed_included_ranges".to_string()
                         } else {
                             format!("C01:mismatch:{lname}")
                         };
